@@ -199,6 +199,26 @@ def run(tier, seed, replay=None):
     assert_repo_import()
     chk = Check("C09", tier, seed)
     model_ok = chk.proof_stage(["Fs/Cache.vo", "Fs/FsProofs.vo", "Report/JsonProofs.vo", "Scope/TieProofs.vo"])
+    # ---- a file that is not valid UTF-8, edited only in its invalid bytes between two scans: the checksum is one of the
+    #      BYTES, so the cached entry must not be reused (seeded change C09-17: checksum of the text decoded with errors="replace")
+    import tempfile as _tf
+    _tmp = _tf.mkdtemp(prefix="verif_c09l_")
+    try:
+        for k in range(3 if tier == "quick" else 20):
+            try:
+                wc, nc, _, rel = F.latin1_edit_scenario(_tmp, k)
+                chk.evaluations += 1
+                chk.count("non-UTF-8 file edited in its invalid bytes, rescanned with the cache")
+                if wc != nc:
+                    chk.violation({"file": rel}, f"{rel} (Latin-1) edited only in bytes that are invalid as UTF-8: the scan with the cache reports "
+                                  f"{[m['unit_name'] for m in wc['codebase']['files'].get(rel, {}).get('measurements', [])]}, a from-scratch scan "
+                                  f"{[m['unit_name'] for m in nc['codebase']['files'].get(rel, {}).get('measurements', [])]}")
+                else:
+                    chk.nontrivial.add(("latin1", k))
+            except Exception as ex:
+                chk.violation({"scenario": "latin1"}, f"rescan of an edited non-UTF-8 file raised {type(ex).__name__}: {ex}")
+    finally:
+        shutil.rmtree(_tmp, ignore_errors=True)
     alpha = op_alphabet()
     prefix = [("write", "a.py", 2), ("write", "d/b.js", 16), ("write", "d/c.py", 2), ("scan",)]
     histories = []
